@@ -1175,6 +1175,42 @@ class Model:
             _FoldBool().visit(root)
             ast.fix_missing_locations(root)
 
+            # a substituted constant argument compared with None (`if None is None: raise` / `if 'text' is None:`) decides its branch
+            class _FoldNoneTest(ast.NodeTransformer):
+                def visit_Compare(self, node):
+                    self.generic_visit(node)
+                    if len(node.ops) == 1 and isinstance(node.ops[0], (ast.Is, ast.IsNot)) and isinstance(node.left, ast.Constant) \
+                            and isinstance(node.comparators[0], ast.Constant) and node.comparators[0].value is None \
+                            and (node.left.value is None or isinstance(node.left.value, (str, int, float, bytes, bool))):
+                        same = node.left.value is None
+                        return ast.copy_location(ast.Constant(value=same if isinstance(node.ops[0], ast.Is) else not same), node)
+                    return node
+            if not os.environ.get('VERIF_NO_CONSTFOLD'):
+                _FoldNoneTest().visit(root)
+
+                def prune(lst):
+                    out = []
+                    for st in lst:
+                        for field in ('body', 'orelse', 'finalbody'):
+                            sub = getattr(st, field, None)
+                            if isinstance(sub, list) and sub and isinstance(sub[0], ast.stmt) and not isinstance(st, FUNC_TYPES + (ast.ClassDef,)):
+                                setattr(st, field, prune(sub) or [ast.copy_location(ast.Pass(), st)] if field == 'body' else prune(sub))
+                        for h in getattr(st, 'handlers', []):
+                            h.body = prune(h.body) or [ast.copy_location(ast.Pass(), h)]
+                        if isinstance(st, ast.If) and isinstance(st.test, ast.Constant) and isinstance(st.test.value, bool):
+                            out.extend(st.body if st.test.value else st.orelse)
+                            if out and isinstance(out[-1], (ast.Raise, ast.Return, ast.Break, ast.Continue)):
+                                break           # what follows an unconditional exit in the same block never runs
+                            continue
+                        if isinstance(st, ast.Try) and not st.orelse and not st.finalbody and st.handlers and \
+                                all(len(h.body) == 1 and isinstance(h.body[0], ast.Raise) and h.body[0].exc is None for h in st.handlers):
+                            out.extend(st.body)         # every handler only re-raises: the try statement changes nothing
+                            continue
+                        out.append(st)
+                    return out
+                root.body = prune(root.body) or [ast.copy_location(ast.Pass(), root)]
+                ast.fix_missing_locations(root)
+
             class _FoldIfExp(ast.NodeTransformer):
                 def visit_IfExp(self, node):
                     self.generic_visit(node)
